@@ -48,6 +48,7 @@ package common
 //@   modifies nothing
 //@   ensures val(v) >= 0
 //@   ensures x == ExtraStoragePriceStep ==> val(v) == 10000
+//@   ensures x == "89.87671232" ==> val(v) == 8987671232   -- C25: the amount of the last legacy mint batch (kernel/mint.go lastMintDistribution)
 
 //@ assume func NewInteger
 //@   modifies nothing
